@@ -137,13 +137,17 @@ func discharge(obls []*Obligation, dir string, timeoutS int, workers int) {
 			}
 			// vacuity guard for contract obligations: the path condition itself must be satisfiable
 			if r.status == "unsat" && coverKinds[o.Kind] {
-				cq := o.Script.query(o.N, []Term{o.Hyp}, false)
+				extra := []Term{o.Hyp}
+				if o.Ante != nil {
+					extra = append(extra, *o.Ante)
+				}
+				cq := o.Script.query(len(o.Script.asserts), extra, false)
 				cfile := filepath.Join(dir, fmt.Sprintf("%04d_%s.cover.smt2", i, safeFile(o.Name)))
 				os.WriteFile(cfile, []byte(cq), 0o644)
 				cr := runSolvers(cfile, timeoutS)
 				if cr.status == "unsat" {
 					o.Status = "vacuous"
-					o.Model = "the path condition of this obligation is unsatisfiable: the obligation holds vacuously (contradictory assumptions or dead code under contract)"
+					o.Model = "the path condition (or the antecedent of the implication) of this obligation is unsatisfiable: the obligation holds vacuously (contradictory assumptions, dead code under contract, or a case that cannot occur)"
 				}
 			}
 		}(i, o)
